@@ -9,17 +9,27 @@
 package c15
 
 import (
+	"encoding/json"
 	"os"
+	"strings"
 	"testing"
 	"time"
 
 	"verif/crashh"
 	"verif/hist"
+	"verif/sched"
 	"verif/vlib"
 )
 
 func TestCheck(t *testing.T) {
-	hist.ServeIfWorker2(t, crashh.ServeCase(t))
+	reg := sched.Registry{"c15race": raceHarness}
+	crashCase, schedJob := crashh.ServeCase(t), sched.ServeJob(t, reg)
+	hist.ServeIfWorker2(t, func(in json.RawMessage) (any, bool) {
+		if out, ok := schedJob(in); ok {
+			return out, true
+		}
+		return crashCase(in)
+	})
 	if f := os.Getenv("VERIF_REPLAY"); f != "" {
 		hist.Replay(t, f)
 	}
@@ -41,6 +51,28 @@ func TestCheck(t *testing.T) {
 	// Crash points inside the drop: on the primary (nothing, a kept journal, an emptied or checkpointed log next to the
 	// database file, both journal modes) and on a replica applying the deletion.
 	cov["crash_points_inside_the_drop"] = crashh.RunAll(run, func(h string) bool { return h == "H12-drop" || h == "H13-replica-tombstone" })
+	// Part B: the deletion racing a write transaction, every schedule up to the preemption bound.
+	{
+		pool := vlib.NewPool()
+		pool.CaseTimeout = 10 * time.Minute
+		bound := 2
+		if run.Thorough() {
+			bound = 3
+		}
+		var info []any
+		for _, cfg := range []RaceCfg{{WAL: false}, {WAL: true}} {
+			var tot sched.Totals
+			sched.Distributed(t, run, pool, reg, "c15race", cfg, bound, 3, 5*time.Minute, &tot)
+			info = append(info, map[string]any{"config": cfg, "schedules": tot.Executions, "outcomes": tot.Outcomes, "max_points": tot.MaxPoints, "capped": tot.Capped})
+			for k := range tot.Outcomes {
+				if strings.HasPrefix(k, "harness-error") {
+					run.HarnessError("%+v: %s", cfg, k)
+				}
+			}
+		}
+		pool.Close()
+		cov["deletion_racing_a_transaction"] = map[string]any{"preemption_bound": bound, "configs": info}
+	}
 	run.Finish(cov, append(append(hist.CommonAssumptions, crashh.Assumptions...),
 		"Crash points inside the drop are the histories H12 and H13 of the crash enumeration shared with the C05 check."))
 }
